@@ -1568,6 +1568,7 @@ PARTS = {
                                     "(checked while broken and at the end), the cwd is the package directory whenever idle, the final output equals the one-shot output")),
     ],
     "C14": [
+        ("py_numpy", "c03_py_array_layouts", dict()),   # an array of records is laid out field by field (no padding on the wire) by the Python runtime, as the plan of every other language prescribes
         C01_CPP_PROTO_WRITER,   # stream steps are laid out as non-empty blocks closed by one 0 in every language (an empty batch writes nothing)
         (G, "gosym_part", dict(name="c14_type_plans", entry="internal/zzverif.C14Type", args_quick=(1, 1), args_thorough=(2, 1),
                                extra_thorough=("-max-paths", "400000"),
